@@ -189,7 +189,14 @@ fn ill_formed(ty: &Type, rng: &mut Rng) -> (Value, String) {
             5 => (Value::Null, "null".into()),
             _ => (json!(""), "empty-string".into()),
         },
-        Type::Bool => match rng.below(5) {
+        Type::Bool => match rng.below(8) {
+            5 | 6 => {
+                // JSON numbers that are not the integers 0 / 1 although their value is 0 or 1 (fraction,
+                // exponent, sign), as a client's serialiser may write them
+                let text = *rng.pick(&["1.0", "0.0", "-0", "-0.0", "1e0", "0e7", "10e-1", "1.00000000000000000001", "0.1e1", "1E0", "0.0e0", "100e-2"]);
+                (serde_json::from_str(text).expect("a JSON number"), "number-0-or-1-not-integer".into())
+            }
+            7 => (json!(*rng.pick(&["True", "TRUE", " true", "false ", "0", "1.0", "t", "f", "on", ""])), "string-near-miss".into()),
             0 => (json!("1"), "string-1".into()),
             1 => (json!(2), "number-2".into()),
             2 => (json!("yes"), "string-yes".into()),
@@ -549,7 +556,7 @@ impl Property for C16 {
         "C16"
     }
     fn rule(&self) -> String {
-        "coercions: for each argument type (Int, Bool, Bytes, Address, UtxoRef, Undefined) a random value v (ints from the i128 boundary set, byte strings of 0..100 bytes, every Shelley address kind, refs with index up to u32::MAX) and each admissible encoding e (decimal string, JSON number below 2^64, 0x + 32 hex digits two's complement; true/false, 0/1, \"true\"/\"false\"; hex with and without 0x in either case, {content|bytecode|payload, contentType|encoding: hex|base64}; bech32 / hex; txid#index): from_json(e(v), type) = v; per type 4..7 ill-formed shapes must be refused; random JSON against every type must not panic. requests: templates lowered from generated programs (declared types known) or random IR trees, declared parameters split between `args` and `env`, some missing, undeclared extras, envelopes intact or corrupted in content / encoding / version (10 variants), or a random JSON document: serde_json::from_value::<ResolveParams> + parse_resolve_request must return Ok or Err and, when Ok, the argument map must equal the declared subset of args + env coerced by the declared types; one request in five carries an ill-formed value for a declared parameter (under args or env) and must be refused; metamorphic: the same request padded with 30..45 undeclared entries (and, half of the time, with one declared parameter present in both maps) must be accepted / refused alike and hand over the same argument map. Non-trivial: every case; distinct = distinct JSON documents.".into()
+        "coercions: for each argument type (Int, Bool, Bytes, Address, UtxoRef, Undefined) a random value v (ints from the i128 boundary set, byte strings of 0..100 bytes, every Shelley address kind, refs with index up to u32::MAX) and each admissible encoding e (decimal string, JSON number below 2^64, 0x + 32 hex digits two's complement; true/false, 0/1, \"true\"/\"false\"; hex with and without 0x in either case, {content|bytecode|payload, contentType|encoding: hex|base64}; bech32 / hex; txid#index): from_json(e(v), type) = v; per type 4..10 ill-formed shapes must be refused (for Bool also the JSON numbers 1.0, 0.0, -0, 1e0, 10e-1 ... parsed from text, and near-miss strings); random JSON against every type must not panic. requests: templates lowered from generated programs (declared types known) or random IR trees, declared parameters split between `args` and `env`, some missing, undeclared extras, envelopes intact or corrupted in content / encoding / version (10 variants), or a random JSON document: serde_json::from_value::<ResolveParams> + parse_resolve_request must return Ok or Err and, when Ok, the argument map must equal the declared subset of args + env coerced by the declared types; one request in five carries an ill-formed value for a declared parameter (under args or env) and must be refused; metamorphic: the same request padded with 30..45 undeclared entries (and, half of the time, with one declared parameter present in both maps) must be accepted / refused alike and hand over the same argument map. Non-trivial: every case; distinct = distinct JSON documents.".into()
     }
     fn assumptions(&self) -> Vec<String> {
         vec![
